@@ -1,25 +1,76 @@
 """Property -> rule instances, instance-count floors, and what each check decides."""
 from sa.rules import tables as T
+from sa.rules import genproto as G
+from sa.rules import excflow as X
 
 PROPS = {}
+
+COMMON_ASSUME = [
+    'only the Python-3 / CPython arms of sys.version_info tests are analysed',
+    'callers do not pass their own tagMap/typeMap/substrateFun options (the properties quantify over inputs, not over codec options)',
+    'the analyser itself (sa/) and its frozen slot bindings / reasoning entries, each printed with its reason',
+]
 
 
 def prop(pid, rules, explanation, minimum=None, assumptions=None):
     PROPS[pid] = {'rules': rules, 'explanation': explanation, 'min': minimum or {},
-                  'assumptions': assumptions or []}
+                  'assumptions': COMMON_ASSUME + (assumptions or [])}
 
-
-COMMON_ASSUME = [
-    'the Python-3 / CPython arms of sys.version_info tests are the ones analysed',
-    'callers do not pass their own tagMap/typeMap/substrateFun options (the properties quantify over inputs, not over codec options)',
-]
 
 prop('C01',
      [T.rule_lookup_shape, T.rule_chain, T.rule_total_ber, T.rule_pair_ber, T.rule_fragment_tag_ber],
-     'placeholder', {'A1.total': 60, 'A1.pair': 80, 'A7.tag': 30})
-prop('C15', [T.rule_lookup_shape, T.rule_chain, T.rule_strict], 'placeholder', {'A1.strict': 30})
-prop('C03', [T.rule_x680, T.rule_modes, T.rule_canonical_sort_registered], 'placeholder', {'A1.x680': 30})
-prop('C02', [T.rule_derived, T.rule_total_canon, T.rule_pair_canon, T.rule_modes, T.rule_keykind], 'placeholder', {})
-prop('C09', [T.rule_ber_lax, T.rule_fragment_tag_ber], 'placeholder', {})
-prop('C16', [T.rule_total_bytag], 'x', {})
-prop('C17', [T.rule_total_native], 'x', {})
+     'Static necessary conditions of the BER round trip: every type class has an encoder by type and a decoder by type, '
+     'writer and reader of each type belong to the same codec family, string segments are tagged by the writer as the '
+     'reader demands and as X.690 8.23.6 says.  Content-octet arithmetic and value equality are not decided.',
+     {'A1.total': 60, 'A1.pair': 80, 'A7.tag': 30, 'A1.chain': 12, 'A1.lookup': 5})
+
+prop('C02',
+     [T.rule_chain, T.rule_derived, T.rule_total_canon, T.rule_pair_canon, T.rule_modes, T.rule_keykind,
+      T.rule_fragment_tag_canon],
+     'CER/DER tables are derived from and total w.r.t. BER, fixed encoder modes match X.690 9/10, codec families pair up, '
+     'string segments agree between CER writer and every reader.  Equality of decoded values is not decided.',
+     {'A1.total': 120, 'A1.pair': 150, 'A1.modes': 8, 'A1.derived': 8, 'A7.tag': 60})
+
+prop('C03', [T.rule_x680, T.rule_modes, T.rule_canonical_sort_registered],
+     'Universal tag numbers, class/format constants, end-of-octets octets and the canonical encoder modes are compared '
+     'with an independent X.680/X.690 table; byte identity is not decided.',
+     {'A1.x680': 35, 'A1.modes': 8, 'A9.reg': 4})
+
+prop('C05',
+     [G.rule_slots, G.rule_prod, G.rule_retry, G.rule_cons, G.rule_last, G.rule_drop, G.rule_reads_confined],
+     'Underrun-generator protocol, logging off: every producer suspends position-neutrally and repeats its read; every '
+     'consumer loop forwards underrun objects untouched and runs nothing else on them; the result is the last item and '
+     'nothing follows it.  By induction on suspension points the decoder state after any arrival schedule equals that of '
+     'the one-shot run.  tell()-difference arithmetic is not decided.',
+     {'A2.cons': 50, 'A2.prod': 70, 'A2.retry': 4, 'A2.last': 50, 'A2.slot': 3, 'A2.drop': 12, 'A2.reads': 5})
+
+prop('C06',
+     [X.rule_hier, X.rule_trunc, G.rule_oneshot, G.rule_retry, G.rule_reads_confined, G.rule_cons],
+     'Truncation is classified as insufficient data: error hierarchy, the three outcomes of a stream read, raises that '
+     'depend on end-of-stream probes or short header reads, the one-shot wrapper, no stream read outside the classifying '
+     'module.  That every content read is sized by the decoded length is arithmetic and not decided.',
+     {'A3.hier': 7, 'A3.trunc': 3, 'A2.oneshot': 3, 'A2.retry': 4, 'A2.reads': 5})
+
+prop('C08',
+     [X.rule_raise, X.rule_tagmap_guard, X.rule_partial, X.rule_schema_index, X.rule_nonevalue, X.rule_progress],
+     'Malformed input fails cleanly: every explicit raise in the decode scope is a library error (or a recorded '
+     'Python-protocol raise), partial operations on wire octets are guarded, no placeholder reaches a result yield, '
+     'every loop makes progress and the item decoder state graph is acyclic.  The numeric step bound is not decided.',
+     {'A3.raise': 100, 'A3.partial': 18, 'A13.value': 20, 'A14.progress': 12, 'A14.states': 8, 'A3.tagmap': 4})
+
+prop('C09', [T.rule_ber_lax, T.rule_fragment_tag_ber],
+     'BER decoder stays lax where X.690 allows choice: any non-zero TRUE, constructed strings with OCTET STRING '
+     'segments, indefinite lengths.',
+     {'A1.lax': 35, 'A7.tag': 30})
+
+prop('C15', [T.rule_lookup_shape, T.rule_chain, T.rule_strict],
+     'Strictness switches resolved per codec x lookup path by constant evaluation of the codec tables: strict BOOLEAN '
+     'accepts exactly {00, FF}, every DER string codec refuses the constructed form, DER refuses indefinite length.',
+     {'A1.strict': 40, 'A1.chain': 12})
+
+prop('C16', [T.rule_total_bytag, X.rule_nonevalue],
+     'Schemaless decoding: by-tag table total over universal types; no None/placeholder reaches a result yield.',
+     {'A1.total': 80, 'A13.value': 20})
+
+prop('C17', [T.rule_total_native],
+     'Native tables total over all types.', {'A1.total': 55})
